@@ -45,6 +45,24 @@ package main
 //  announced                  [0, h1, id1, h2, id2, ...]
 //  counts                     [0, incoming, processing]
 //  drain                      [0, drained>0]           harness empties the tx channel (ends a hung scenario)
+//
+// untrusted peers of the real run loop (scripted loopback listeners, see shutdown_upeers.go):
+//  u_count n                  [0]                      cfg.UntrustedCount (before start)
+//  u_peer kind                [0]                      one more scripted untrusted peer, its address stored in the peer repository
+//                                                      (before start); kind 1 good, 2 fresh (never checked), 3 slow dial, 4 silent,
+//                                                      5 good and not stored (told later by u_addr)
+//  u_addr i                   [0]                      the trusted peer tells the address of peer i in an addr message
+//  u_wait_conn i ms           [0, connected]           peer i (-1: any) has a connection whose handshake is complete
+//  u_wait_seen i ms           [0, seen]                peer i has completed a handshake with the node at least once (scanning nodes leave again)
+//  u_conns i                  [0, connections]         connections peer i has accepted so far
+//  u_listed i                 [0, lockFree, listed]    untrustedLock can be taken / the address of peer i is in the node's list
+//  u_release i                [0]                      the hanging dial to slow peer i may complete
+//  u_inv i t                  [0, pong, asked]         peer i announces tx t; getdata requests for t received by peer i so far
+//  u_getdata i t              [0, pong, asked]         activity of peer i (pings), then the requests for t received by peer i so far
+//  u_close i                  [0]                      peer i closes its connection (and its listener)
+//  wait_scanning v ms         [0, reached]             the scan flag has value v
+//  broadcast t                [0, err]                 the application calls Node.BroadcastTx
+//  counts_u                   [0, untrusted]           untrusted node goroutines running
 
 import (
 	"context"
@@ -354,6 +372,27 @@ func runShutdown(c *Case) ([]Obs, any) {
 	apiSeq := int64(0)
 	burstSeq := int64(0)
 	addrSeq := int64(0)
+	var upeers []*sdUPeer
+	upeer := func(i int64) *sdUPeer {
+		if i == -1 {
+			for _, u := range upeers {
+				if u.connected() {
+					return u
+				}
+			}
+			return nil
+		}
+		if i < 0 || int(i) >= len(upeers) {
+			panic(harnessErr("no such untrusted peer"))
+		}
+		return upeers[i]
+	}
+	nodeTip := func() int64 {
+		if node == nil {
+			return 0
+		}
+		return int64(node.VerifBlocks().LastHeight())
+	}
 
 	newNode := func() *spynode.Node {
 		n := spynode.NewNode(cfg, store, fetch, fetch)
@@ -951,6 +990,122 @@ func runShutdown(c *Case) ([]Obs, any) {
 					waitFor(func() bool { s, _, _ := node.VerifFlags(); return s }, 300*time.Millisecond)
 				}
 				return Obs{OK}
+			case "u_count":
+				if node != nil {
+					panic(harnessErr("u_count after start"))
+				}
+				cfg.UntrustedCount = int(op.Int(0))
+				return Obs{OK}
+			case "u_peer":
+				if node != nil {
+					panic(harnessErr("u_peer after start"))
+				}
+				kind := op.Int(0)
+				u := newUPeer(kind, wire.BitcoinNet(cfg.Net), bu, tu, umu, nodeTip)
+				upeers = append(upeers, u)
+				if kind != 5 {
+					// through the repository of a node on the same storage, the way the node itself stores them
+					pre := spynode.NewNode(cfg, store, fetch, fetch)
+					repo := pre.VerifPeers()
+					if err := repo.Load(ctx); err != nil {
+						panic(harnessErr("load peers: " + err.Error()))
+					}
+					repo.Add(ctx, u.addr)
+					if kind != 2 {
+						repo.UpdateScore(ctx, u.addr, 5)
+					}
+					if err := repo.Save(ctx); err != nil {
+						panic(harnessErr("save peers: " + err.Error()))
+					}
+				}
+				return Obs{OK}
+			case "u_addr":
+				u := upeer(op.Int(0))
+				ta, _ := net.ResolveTCPAddr("tcp", u.addr)
+				m := wire.NewMsgAddr()
+				m.AddAddress(wire.NewNetAddressIPPort(net.IPv4(127, 0, 0, 1), uint16(ta.Port), 0))
+				peer.send(m)
+				barrier()
+				return Obs{OK}
+			case "u_wait_conn":
+				d := time.Duration(op.Int(1)) * time.Millisecond
+				ok := waitFor(func() bool { u := upeer(op.Int(0)); return u != nil && u.connected() }, d)
+				return Obs{OK, b2i(ok)}
+			case "u_wait_seen":
+				u := upeer(op.Int(0))
+				ok := waitFor(func() bool { u.mu.Lock(); defer u.mu.Unlock(); return u.shakes > 0 }, time.Duration(op.Int(1))*time.Millisecond)
+				return Obs{OK, b2i(ok)}
+			case "u_conns":
+				u := upeer(op.Int(0))
+				u.mu.Lock()
+				defer u.mu.Unlock()
+				return Obs{OK, u.conns}
+			case "u_listed":
+				u := upeer(op.Int(0))
+				if u == nil {
+					return Obs{OK, 0, 0}
+				}
+				free, listed := false, false
+				look := func() bool {
+					l, ok := node.VerifUntrustedAddresses()
+					free, listed = ok, false
+					for _, a := range l {
+						if a == u.addr {
+							listed = true
+						}
+					}
+					return free && listed
+				}
+				waitFor(look, 700*time.Millisecond)
+				return Obs{OK, b2i(free), b2i(listed)}
+			case "u_release":
+				upeer(op.Int(0)).release()
+				return Obs{OK}
+			case "u_inv", "u_getdata":
+				u, t := upeer(op.Int(0)), op.Int(1)
+				if u == nil {
+					return Obs{OK, 0, 0}
+				}
+				if op.Name == "u_inv" {
+					h := *mkTx(t, []int64{90000 + t*10}, true).TxHash()
+					m := wire.NewMsgInv()
+					m.AddInvVect(wire.NewInvVect(wire.InvTypeTx, &h))
+					u.send(m)
+				}
+				pingNonce++
+				ok1 := u.barrier(pingNonce, react)
+				pingNonce++
+				ok2 := u.barrier(pingNonce, react)
+				time.Sleep(30 * time.Millisecond)
+				u.mu.Lock()
+				n := u.txreq[t]
+				u.mu.Unlock()
+				return Obs{OK, b2i(ok1 && ok2), n}
+			case "u_close":
+				u := upeer(op.Int(0))
+				if u != nil {
+					u.close()
+				}
+				return Obs{OK}
+			case "wait_scanning":
+				v := op.Int(0) != 0
+				ok := waitFor(func() bool { return node.VerifScanning() == v }, time.Duration(op.Int(1))*time.Millisecond)
+				return Obs{OK, b2i(ok)}
+			case "broadcast":
+				err := node.BroadcastTx(ctx, mkTx(op.Int(0), []int64{970000 + op.Int(0)*10}, true))
+				return Obs{OK, b2i(err != nil)}
+			case "counts_u":
+				_, _, un := node.VerifCounts()
+				stable := time.Now()
+				deadline := time.Now().Add(2 * time.Second)
+				for time.Now().Before(deadline) && time.Since(stable) < 150*time.Millisecond {
+					time.Sleep(5 * time.Millisecond)
+					_, _, u2 := node.VerifCounts()
+					if u2 != un {
+						un, stable = u2, time.Now()
+					}
+				}
+				return Obs{OK, un}
 			case "stop":
 				startStop()
 				ret := waitChan(stopDone, bound)
@@ -1080,6 +1235,9 @@ func runShutdown(c *Case) ([]Obs, any) {
 		rec.gate = nil
 	}
 	rec.mu.Unlock()
+	for _, u := range upeers {
+		u.close()
+	}
 	if node != nil && !chanDone(runDone) {
 		startStop()
 		if !waitChan(stopDone, 2*time.Second) {
